@@ -55,15 +55,16 @@ func c18norm(l []items.CharRange, via bool) []items.CharRange {
 }
 
 type c18out struct {
-	States         int       `json:"states"`
-	StatesViaNodes int       `json:"states_via_nodes"`
-	Transitions    int       `json:"transitions"`
-	MaxDepth       int       `json:"max_depth"`
-	Universe       int       `json:"universe"`
-	Violations     []c18viol `json:"violations"`
-	Samples        []c18viol `json:"samples"`
-	Replayed       int       `json:"replayed"`
-	NoopChecked    int       `json:"noop_checked"`
+	States              int       `json:"states"`
+	StatesViaNodes      int       `json:"states_via_nodes"`
+	LargeSetTransitions int       `json:"large_set_transitions"`
+	Transitions         int       `json:"transitions"`
+	MaxDepth            int       `json:"max_depth"`
+	Universe            int       `json:"universe"`
+	Violations          []c18viol `json:"violations"`
+	Samples             []c18viol `json:"samples"`
+	Replayed            int       `json:"replayed"`
+	NoopChecked         int       `json:"noop_checked"`
 }
 
 type c18viol struct {
@@ -234,6 +235,46 @@ func init() {
 			}
 		}
 		seen := seenAll
+		// start from non-initial states too: sets that already hold 17 and 33 classes (an implementation may switch
+		// strategy with the size of the set); every sequence of two further operations over a window around them
+		if len(out.Violations) == 0 {
+			for _, nBase := range []int{17, 33} {
+				var base []c18op
+				for i := 0; i < nBase; i++ {
+					base = append(base, c18op{rune(3 * i), rune(3*i + 1), "raw"})
+				}
+				hi := rune(3*nBase + 1)
+				win := []rune{0, 1, 2, 3, 4, rune(3 * (nBase / 2)), rune(3*(nBase/2) + 1), rune(3*(nBase/2) + 2), rune(3*(nBase/2) + 3), hi - 5, hi - 4, hi - 3, hi - 2, hi - 1, hi}
+				var ops []c18op
+				for _, f := range win {
+					for _, t := range win {
+						if f <= t {
+							ops = append(ops, c18op{f, t, "raw"})
+						}
+					}
+				}
+				for _, o1 := range ops {
+					p1 := append(append([]c18op(nil), base...), o1)
+					if msg, old, nl := c18check(base, o1, hi); msg != "" {
+						out.Violations = append(out.Violations, c18viol{Msg: msg, Path: base, Op: o1, Old: fmt.Sprint(old), New: fmt.Sprint(nl)})
+						break
+					}
+					out.Transitions++
+					out.LargeSetTransitions++
+					for _, o2 := range ops {
+						out.Transitions++
+						out.LargeSetTransitions++
+						if msg, old, nl := c18check(p1, o2, hi); msg != "" {
+							out.Violations = append(out.Violations, c18viol{Msg: msg, Path: p1, Op: o2, Old: fmt.Sprint(old), New: fmt.Sprint(nl)})
+							break
+						}
+					}
+					if len(out.Violations) > 0 {
+						break
+					}
+				}
+			}
+		}
 		// determinism of replay: every state's shortest path, rebuilt twice, gives the same content
 		for k, p := range seen {
 			if key(c18build(p).List()) != k || key(c18build(p).List()) != k {
